@@ -1,6 +1,6 @@
 (* C10 — one connection's misbehaviour never harms another connection. *)
 From Coq Require Import ZArith List Bool.
-From HP Require Import Bytes Sha1 Wire Broker BrokerSpec BrokerInv BrokerStep BrokerTrace BrokerLocal BrokerProps BrokerProps2 BrokerBenign.
+From HP Require Import Bytes Sha1 Wire Broker BrokerSpec BrokerInv BrokerStep BrokerTrace BrokerLocal BrokerProps BrokerProps2 BrokerBenign BrokerBlame BrokerWellBehaved.
 Import ListNotations.
 
 Section C10.
@@ -52,7 +52,48 @@ Theorem C10_permitted_publish : forall q me c d s, Good store async_store s ->
   ak (conns s q) = Some me -> In c (pubchans (conns s q)) -> copen (conns s q) = true ->
   exists s', on_publish q me c d s = Ok s' /\ sameclosing s s' /\ Good store async_store s'.
 Proof. exact (permitted_publish store async_store). Qed.
+
+(* ---- over whole histories ---- *)
+(* own q s e := e is an event of connection q itself (its connection being made, its bytes, its EOF or loss, the verdict
+   of its own credential lookup, its own back-pressure), or a clock tick while q is on a back-pressure deadline.
+   foreign q s h := no event of the stretch h, played from state s, is q's own. *)
+
+(* whatever all the OTHER connections do after h1, for however long - arbitrary bytes, bad frames, unauthorised requests,
+   disconnects, never reading, deadlines expiring - connection q is untouched: same identity, permissions, buffer and
+   flags, only PUBLISH frames were added to what it was sent, and if it was open, not closing and subscribed, it still is *)
+Theorem C10_others_cannot_touch : forall q h1 h2, foreign bname store async_store q (run h1) h2 ->
+  untouched (conns (run h1) q) (conns (run (h1 ++ h2)) q).
+Proof. exact (others_cannot_touch bname store async_store). Qed.
+
+(* blame: whenever a connection is found closing, the event at which it became closing was its own *)
+Theorem C10_closing_blame : forall h q, closing (conns (run h) q) = true ->
+  exists h1 e h2, h = h1 ++ e :: h2 /\ closing (conns (run h1) q) = false /\
+                  closing (conns (run (h1 ++ [e])) q) = true /\ own q (run h1) e.
+Proof. exact (closing_blame bname store async_store). Qed.
 End C10.
+
+Section C10wb.
+Variable bname : bytes. Variable store : ident -> lookup.
+(* wb_frames n cur fs: the requests fs of a client that was sent nonce n and last authenticated as cur are all permitted:
+     OP_AUTH (i, SHA1(n ++ secret stored for i)); OP_PUBLISH under the own identity on a channel of its publish list;
+     OP_SUBSCRIBE on a channel of its subscribe list; any OP_UNSUBSCRIBE.
+   wb_chunk q s cur chunk: what is buffered for q plus chunk = such well-formed requests ++ an incomplete tail.
+   wb_hist q s h: every event of h is either not q's own, or q's connection being made, or data from q that is
+     well-formed and permitted when it arrives (so q never hangs up, is never reported lost, never stalls). *)
+
+(* one read of pipelined, permitted requests: all accepted, the connection stays healthy, the clock is not started *)
+Theorem C10_permitted_data : forall q s cur chunk, Good store false s -> healthy s q -> agrees s q cur ->
+  wb_chunk store q s cur chunk ->
+  healthy (do_data store false q chunk s) q /\
+  timer (conns (do_data store false q chunk s) q) = timer (conns s q).
+Proof. exact (do_data_wb store). Qed.
+
+(* FOR EVERY HISTORY (synchronous store): a well-behaved connection is never disconnected, whatever the others do *)
+Theorem C10_well_behaved_never_closed : forall h q, wb_hist bname store q state0 h ->
+  closing (conns (Broker.run bname store false h) q) = false /\
+  (made (conns (Broker.run bname store false h) q) = true -> copen (conns (Broker.run bname store false h) q) = true).
+Proof. exact (well_behaved_never_closed bname store). Qed.
+End C10wb.
 
 Print Assumptions C10_frame_local.
 Print Assumptions C10_tick_local.
@@ -62,3 +103,7 @@ Print Assumptions C10_permitted_subscribe_ok.
 Print Assumptions C10_permitted_subscribe.
 Print Assumptions C10_any_unsubscribe.
 Print Assumptions C10_permitted_publish.
+Print Assumptions C10_others_cannot_touch.
+Print Assumptions C10_closing_blame.
+Print Assumptions C10_permitted_data.
+Print Assumptions C10_well_behaved_never_closed.
